@@ -5,6 +5,8 @@ go 1.26.8
 require (
 	github.com/avos-io/goat v0.0.0
 	github.com/rs/zerolog v1.33.0
+	google.golang.org/grpc v1.66.0
+	google.golang.org/protobuf v1.34.2
 )
 
 require (
@@ -18,8 +20,6 @@ require (
 	golang.org/x/sys v0.24.0 // indirect
 	golang.org/x/text v0.17.0 // indirect
 	google.golang.org/genproto/googleapis/rpc v0.0.0-20240827150818-7e3bb234dfed // indirect
-	google.golang.org/grpc v1.66.0 // indirect
-	google.golang.org/protobuf v1.34.2 // indirect
 )
 
 replace github.com/avos-io/goat => /repo
